@@ -1,4 +1,4 @@
-import Gimli.Prim.Basic
+import Gimli.Model.CfiEntry
 /-!
 # Spec: `.eh_frame` / `.debug_frame` / `.eh_frame_hdr` — what the bytes mean
 (DWARF 5 §6.4.1, LSB Core "Exception Frames" and "DWARF Extensions")
@@ -33,5 +33,53 @@ instance (b : Nat) : Decidable (validEncoding b) := by unfold validEncoding; inf
 def covers (initial len a : Nat) : Prop := initial ≤ a ∧ a < initial + len
 
 instance (i l a : Nat) : Decidable (covers i l a) := by unfold covers; infer_instance
+
+/-! ## encoded pointers (LSB "DWARF Exception Header Encoding")
+
+A pointer field holds an *operand* in the value format of its encoding byte; the pointer is
+`base + operand` modulo the address size, where `base` is selected by the application bits. -/
+
+open Gimli.CfiEntry in
+/-- the base an application refers to, for a field at section offset `off`; `none` when the caller
+did not provide it (or the application has no base: `aligned`, undefined) -/
+def neededBase (enc : Nat) (p : PeParams) (off : Nat) : Option Nat :=
+  let a := peApplication enc
+  if a = 0 then some 0
+  else if a = 0x10 then p.bases.sect.map (fun sb => (sb + off) % 2 ^ 64 % 2 ^ (8 * p.asz))
+  else if a = 0x20 then p.bases.text
+  else if a = 0x30 then p.bases.data
+  else if a = 0x40 then p.funcBase
+  else none
+
+open Gimli.CfiEntry in
+/-- the error gimli reports for an absent base -/
+def missingBaseErr (enc : Nat) : Err :=
+  let a := peApplication enc
+  if a = 0x10 then .rPcRelativePointerButSectionBaseIsUndefined
+  else if a = 0x20 then .rTextRelativePointerButTextBaseIsUndefined
+  else if a = 0x30 then .rDataRelativePointerButDataBaseIsUndefined
+  else .rFuncRelativePointerInBadContext
+
+open Gimli.CfiEntry in
+/-- the bytes of an operand (a 64-bit pattern `x`; negative operands of the signed formats are
+their two's-complement patterns) in value format `enc % 16`, when it fits.  `sleb128` is not
+given an encoder here (no signed-LEB round-trip theorem exists yet): `none`. -/
+def encodeOperand (e : Endian) (enc asz x : Nat) : Option Bytes :=
+  let f := peFormat enc
+  if f = 0 then
+    if (asz = 1 ∨ asz = 2 ∨ asz = 4 ∨ asz = 8) ∧ x < 2 ^ (8 * asz) then some (Ints.toBytes e asz x) else none
+  else if f = 1 then (if x < 2 ^ 64 then some (Leb.encodeU x) else none)
+  else if f = 2 then (if x < 2 ^ 16 then some (Ints.toBytes e 2 x) else none)
+  else if f = 3 then (if x < 2 ^ 32 then some (Ints.toBytes e 4 x) else none)
+  else if f = 4 then (if x < 2 ^ 64 then some (Ints.toBytes e 8 x) else none)
+  else if f = 0x0a then (if sext 2 (x % 2 ^ 16) = x then some (Ints.toBytes e 2 (x % 2 ^ 16)) else none)
+  else if f = 0x0b then (if sext 4 (x % 2 ^ 32) = x then some (Ints.toBytes e 4 (x % 2 ^ 32)) else none)
+  else if f = 0x0c then (if x < 2 ^ 64 then some (Ints.toBytes e 8 x) else none)
+  else none
+
+/-- an operand that makes `base + operand ≡ target` modulo the address size (the canonical
+non-negative one; for a signed format the encoder may instead use `operand + 2^64 − 2^(8·asz)`) -/
+def operandFor (asz base target : Nat) : Nat :=
+  (target + 2 ^ (8 * asz) - base % 2 ^ (8 * asz)) % 2 ^ (8 * asz)
 
 end Gimli.Spec.Frame
